@@ -13,7 +13,7 @@ use proc_macro2::TokenStream;
 use quote::{format_ident, quote};
 
 use super::common::{
-    check_name, check_path, is_valid_ident, safe_ident, CodegenGrammar, CodegenRule,
+    check_derives, check_name, check_path, is_valid_ident, safe_ident, CodegenGrammar, CodegenRule,
     CodegenSettings,
 };
 use super::include_rule::check_include_cycles;
@@ -22,6 +22,7 @@ impl CodegenGrammar for Grammar {
     fn generate_code(&self, settings: &CodegenSettings) -> Result<TokenStream> {
         check_include_cycles(self)?;
         self.check_names()?;
+        check_derives(settings)?;
         let mut all_types = TokenStream::new();
         let mut all_parsers = TokenStream::new();
         let mut all_impls = TokenStream::new();
